@@ -1,76 +1,86 @@
 (* C12 -- Selection is the pattern matches plus their dependency closure, nothing else.
    Only statements, each closed by [exact] of a lemma from Select_proofs.v.
-   [select_for_build] mirrors selection.SelectTargetsForBuild (recursive ancestor marking
-   without a visited set, platform error); [roots] is the code's rule (a matched alias is a
-   root without any filter), [spec_roots] the property's reading (the tag / exclude-tag / type /
-   platform filters are those of the target a matched node stands for). *)
+   [select_for_build] mirrors selection.SelectTargetsForBuild (ancestor marking with one visited map,
+   platform error); [spec_roots] is the property's reading of a root: a node matched by the pattern
+   whose TARGET (an alias stands for the target it resolves to, dag.ResolveTarget) passes the tag /
+   exclude-tag / type / platform filters.  Since the repair of C12-F1 this is the code's own rule
+   ([roots], C12_roots_are_spec_roots); before it a matched alias was a root without any filter and the
+   two full statements below were REFUTED (C12_selection_is_closure_refuted, C12_platform_error_refuted). *)
 From Grog Require Import Str Label Graph Select Select_proofs.
 From Grog Require Build Build_lift_proofs.
 
-(* full statement, property's reading of a root: REFUTED -- a target is selected (and built)
-   although no pattern/filter match depends on it (known finding C12-F1: an alias matching the
-   pattern is a root whatever the filters say about its target) *)
-Theorem C12_selection_is_closure_refuted :
-  exists cfg ns g S n,
-    topo g /\ wf_graph g /\ select_for_build cfg ns g = Selected S /\
-    is_target (attr ns n) = true /\
-    ~ (In n S <-> exists r, In r (spec_roots cfg ns g) /\ reach_refl g n r).
-Proof. exact closure_full_refuted. Qed.
-Print Assumptions C12_selection_is_closure_refuted.
+(* the roots the code's selection loop starts from are exactly the roots of the property's reading *)
+Theorem C12_roots_are_spec_roots : forall cfg ns g, roots cfg ns g = spec_roots cfg ns g.
+Proof. exact roots_eq_spec_roots. Qed.
+Print Assumptions C12_roots_are_spec_roots.
 
-(* strongest true statement 1: with the code's roots (matched aliases included) the selection
-   is exactly the reflexive-transitive dependency closure of the roots, for every node *)
-Theorem C12_selection_is_closure_partial : forall cfg ns g S,
+Theorem C12_selection_equals_spec_selection : forall cfg ns g,
+  select_for_build cfg ns g = select_for_build_spec cfg ns g.
+Proof. exact select_for_build_is_spec. Qed.
+Print Assumptions C12_selection_equals_spec_selection.
+
+(* full statement: the selection is exactly the reflexive-transitive dependency closure (followed
+   through aliases, which are nodes) of the pattern matches whose target passes the filters *)
+Theorem C12_selection_is_closure : forall cfg ns g S,
   topo g -> select_for_build cfg ns g = Selected S ->
-  forall n, In n S <-> exists r, In r (roots cfg ns g) /\ reach_refl g n r.
-Proof. exact selection_is_closure_code_roots. Qed.
-Print Assumptions C12_selection_is_closure_partial.
-
-(* strongest true statement 2: the full statement under the guard "every alias matched by the
-   pattern stands for a target that passes the filters" (in particular: no alias is matched) *)
-Theorem C12_selection_is_closure_guarded_partial : forall cfg ns g S,
-  topo g -> aliases_respect_filters cfg ns g -> select_for_build cfg ns g = Selected S ->
   forall n, In n S <-> exists r, In r (spec_roots cfg ns g) /\ reach_refl g n r.
-Proof. exact selection_is_closure_guarded. Qed.
-Print Assumptions C12_selection_is_closure_guarded_partial.
+Proof. exact selection_is_closure. Qed.
+Print Assumptions C12_selection_is_closure.
 
-(* the full statement holds for the same traversal started from the property's roots
-   ([select_for_build_spec]: what a repaired selector computes; the check accepts either variant) *)
-Theorem C12_repaired_selection_is_closure : forall cfg ns g S,
-  topo g -> select_for_build_spec cfg ns g = Selected S ->
-  forall n, In n S <-> exists r, In r (spec_roots cfg ns g) /\ reach_refl g n r.
-Proof. exact selection_spec_is_closure. Qed.
-Print Assumptions C12_repaired_selection_is_closure.
-
-Theorem C12_repaired_platform_error : forall cfg ns g,
-  topo g ->
-  (select_for_build_spec cfg ns g = PlatformError <->
-   exists r n, In r (spec_roots cfg ns g) /\ reach g n r /\ node_matches_platform cfg (attr ns n) = false).
-Proof. exact platform_error_spec_iff. Qed.
-Print Assumptions C12_repaired_platform_error.
-
-(* the platform error: full statement REFUTED (an alias of a platform-incompatible target turns
-   the platform skip into the error), true for the code's roots and under the guard *)
-Theorem C12_platform_error_refuted :
-  exists cfg ns g,
-    topo g /\ select_for_build cfg ns g = PlatformError /\
-    ~ exists r n, In r (spec_roots cfg ns g) /\ reach g n r /\ node_matches_platform cfg (attr ns n) = false.
-Proof. exact platform_error_full_refuted. Qed.
-Print Assumptions C12_platform_error_refuted.
-
-Theorem C12_platform_error_partial : forall cfg ns g,
+(* the platform error is raised exactly when a root has a platform-incompatible transitive dependency *)
+Theorem C12_platform_error : forall cfg ns g,
   topo g ->
   (select_for_build cfg ns g = PlatformError <->
-   exists r n, In r (roots cfg ns g) /\ reach g n r /\ node_matches_platform cfg (attr ns n) = false).
+   exists r n, In r (spec_roots cfg ns g) /\ reach g n r /\ node_matches_platform cfg (attr ns n) = false).
 Proof. exact platform_error_iff. Qed.
-Print Assumptions C12_platform_error_partial.
+Print Assumptions C12_platform_error.
 
-Theorem C12_platform_error_guarded_partial : forall cfg ns g,
-  topo g -> aliases_respect_filters cfg ns g ->
-  (select_for_build cfg ns g = PlatformError <->
-   exists r n, In r (spec_roots cfg ns g) /\ reach g n r /\ node_matches_platform cfg (attr ns n) = false).
-Proof. exact platform_error_guarded. Qed.
-Print Assumptions C12_platform_error_guarded_partial.
+(* what a root is, by kind: a target passes its own filters; an alias passes iff its `actual` does *)
+Theorem C12_root_target : forall cfg ns g i,
+  nkind (attr ns i) = KTarget ->
+  spec_rootb cfg ns g i =
+  matches_patterns (cpats cfg) (nlabel (attr ns i)) && target_filters cfg (attr ns i)
+  && node_matches_platform cfg (attr ns i).
+Proof. exact spec_root_target. Qed.
+Print Assumptions C12_root_target.
+
+Theorem C12_alias_passes_iff_actual : forall cfg ns g i d, topo g ->
+  nkind (attr ns i) = KAlias -> deps g i = [d] -> passes_filters cfg ns g i = passes_filters cfg ns g d.
+Proof. exact passes_filters_alias. Qed.
+Print Assumptions C12_alias_passes_iff_actual.
+
+(* no target is selected unless it passes the filters itself or a root depends on it: a matched alias
+   never brings in a target that fails the filters *)
+Theorem C12_selected_target_justified : forall cfg ns g S,
+  topo g -> select_for_build cfg ns g = Selected S ->
+  forall n, In n S -> nkind (attr ns n) = KTarget ->
+  (matches_patterns (cpats cfg) (nlabel (attr ns n)) && target_filters cfg (attr ns n)
+   && node_matches_platform cfg (attr ns n) = true) \/
+  exists r, In r (spec_roots cfg ns g) /\ reach g n r.
+Proof. exact selected_target_justified. Qed.
+Print Assumptions C12_selected_target_justified.
+
+(* concrete instances (non-vacuity; the first and the third were the refutation witnesses): --tag=x //... with an
+   alias of an untagged target selects the tagged target only; the alias is still selected when a root depends on
+   it; an alias of a windows-only target is skipped on linux instead of failing the build *)
+Theorem C12_alias_root_filtered :
+  topo wit_graph /\ spec_roots wit_cfg wit_nodes wit_graph = [2] /\
+  select_for_build wit_cfg wit_nodes wit_graph = Selected [2].
+Proof. exact alias_root_filtered. Qed.
+Print Assumptions C12_alias_root_filtered.
+
+Theorem C12_alias_followed_as_dependency :
+  spec_roots wit_cfg wit_nodes [[]; [0]; [1]] = [2] /\
+  select_for_build wit_cfg wit_nodes [[]; [0]; [1]] = Selected [0; 1; 2].
+Proof. exact alias_followed_as_dependency. Qed.
+Print Assumptions C12_alias_followed_as_dependency.
+
+Theorem C12_alias_platform_skipped :
+  spec_roots wit2_cfg wit2_nodes wit_graph = [2] /\
+  select_for_build wit2_cfg wit2_nodes wit_graph = Selected [2] /\
+  platform_skipped wit2_cfg wit2_nodes wit_graph = 1.
+Proof. exact alias_platform_skipped. Qed.
+Print Assumptions C12_alias_platform_skipped.
 
 (* a successful selection is closed under dependencies (the precondition C04 uses) *)
 Theorem C12_closed : forall cfg ns g S,
@@ -82,7 +92,7 @@ Print Assumptions C12_closed.
 (* never a partial build: everything below a root of a successful selection matches the platform *)
 Theorem C12_no_partial_build : forall cfg ns g S,
   topo g -> select_for_build cfg ns g = Selected S ->
-  forall r n, In r (roots cfg ns g) -> reach g n r -> node_matches_platform cfg (attr ns n) = true.
+  forall r n, In r (spec_roots cfg ns g) -> reach g n r -> node_matches_platform cfg (attr ns n) = true.
 Proof. exact selection_platform_ok. Qed.
 Print Assumptions C12_no_partial_build.
 
